@@ -451,16 +451,82 @@ class SimClock:
 # crashes
 # --------------------------------------------------------------------------
 
+_SIMPLE = (bool, int, float, str, type(None))
+
+
+class StateProbe:
+    """Cheap fingerprint of process-lifetime propka state: simple-valued
+    module globals and class attributes, and the simple-valued attributes (plus
+    container sizes) of module-level instances of propka classes (the
+    singletons).  Used only to *aim* crashes: an interval during which the
+    fingerprint differs from its value at the start of a call is in-flight
+    state, the place where a crash is most likely to leave something behind."""
+
+    def __init__(self, modules):
+        self.slots = []       # (namespace dict-like owner, name)
+        self.singletons = []
+        classes = set()
+        for mod in modules:
+            for name, val in list(vars(mod).items()):
+                if name.startswith('__'):
+                    continue
+                if isinstance(val, _SIMPLE):
+                    self.slots.append((mod, name))
+                elif inspect.isclass(val) and getattr(val, '__module__', '') == mod.__name__:
+                    classes.add(val)
+                elif (not inspect.ismodule(val) and not inspect.isfunction(val)
+                      and type(val).__module__.startswith('propka')):
+                    self.singletons.append(val)
+        for cls in classes:
+            for name, val in list(vars(cls).items()):
+                if not name.startswith('__') and isinstance(val, _SIMPLE):
+                    self.slots.append((cls, name))
+        self.classes = list(classes)
+
+    def fingerprint(self):
+        out = []
+        for owner, name in self.slots:
+            out.append(getattr(owner, name, None))
+        for inst in self.singletons:
+            d = getattr(inst, '__dict__', None)
+            if d is None:
+                continue
+            for k in sorted(d):
+                v = d[k]
+                if isinstance(v, _SIMPLE):
+                    out.append((k, v))
+                elif isinstance(v, (dict, list, set, tuple)):
+                    out.append((k, len(v)))
+        for cls in self.classes:
+            out.append(len(vars(cls)))
+        return hash(tuple(out))
+
+
 class CrashTracer:
     """Counts line events per (file, function) of propka code, or raises
-    SimCrash at a chosen (function, ordinal)."""
+    SimCrash at a chosen (function, ordinal) or at a chosen global line-event
+    number.  In census mode it can also record the intervals (in line-event
+    numbers) during which process-lifetime state differs from its value at
+    the start of the call."""
 
     def __init__(self, root):
         self.root = root
         self.counts = {}
         self.target = None
+        self.target_global = None
         self.fired = None
         self.events = 0
+        self.state = None
+        self.windows = []
+
+    def _check_state(self):
+        dirty = self.state.fingerprint() != self._fp0
+        if dirty and self._open is None:
+            self._open = self.events
+        elif not dirty and self._open is not None:
+            if len(self.windows) < 400:
+                self.windows.append([self._open, self.events])
+            self._open = None
 
     def _local(self, frame, event, arg):
         if event == 'line':
@@ -468,28 +534,43 @@ class CrashTracer:
             key = (code.co_filename, code.co_name)
             c = self.counts.get(key, 0)
             self.counts[key] = c + 1
-            self.events += 1
-            t = self.target
-            if t is not None and self.fired is None and key == t[0] and c == t[1]:
-                self.fired = {'file': os.path.basename(key[0]), 'func': key[1],
-                              'ordinal': c, 'line': frame.f_lineno}
-                raise SimCrash('crash at %s:%s#%d' % (self.fired['file'], key[1], c))
+            n = self.events
+            self.events = n + 1
+            if self.fired is None:
+                t = self.target
+                if (t is not None and key == t[0] and c == t[1]) or n == self.target_global:
+                    self.fired = {'file': os.path.basename(key[0]), 'func': key[1],
+                                  'ordinal': c, 'line': frame.f_lineno, 'event': n}
+                    raise SimCrash('crash at %s:%s#%d' % (self.fired['file'], key[1], c))
+        elif event == 'return' and self.state is not None:
+            self._check_state()
         return self._local
 
     def _global(self, frame, event, arg):
         if frame.f_code.co_filename.startswith(self.root):
+            if self.state is not None:
+                self._check_state()
             return self._local
         return None
 
-    def start(self, target=None):
+    def start(self, target=None, target_global=None, state=None):
         self.counts = {}
         self.events = 0
         self.target = target
+        self.target_global = target_global
         self.fired = None
+        self.state = state
+        self.windows = []
+        self._open = None
+        if state is not None:
+            self._fp0 = state.fingerprint()
         sys.settrace(self._global)
 
     def stop(self):
         sys.settrace(None)
+        if self.state is not None and self._open is not None:
+            # still dirty at the end of the call: a permanent change, not a window
+            self._open = None
 
 
 # --------------------------------------------------------------------------
